@@ -16,9 +16,9 @@ def changesPrompt : Op → Bool
   | .setPrompt _ | .promptEnter _ | .promptExit | .rup (some _) _ => true
   | _ => false
 
-/-- everything but the three prompt-configuration and the two attach/detach operations -/
+/-- everything but the three prompt-configuration and the three attach/detach operations -/
 def isReading : Op → Bool
-  | .setPrompt _ | .promptEnter _ | .promptExit | .streamEnter _ _ | .streamExit => false
+  | .setPrompt _ | .promptEnter _ | .promptExit | .streamEnter _ _ | .streamExit | .streamExitAt _ => false
   | _ => true
 
 theorem SS.writes_prompt (ds : List Bytes) (x : SS) : (x.writes ds).prompt = x.prompt := by
@@ -66,6 +66,7 @@ theorem eff (r : RunSt) (op : Op) (h : isReading op = true) : Eff r op := by
   | promptExit => simp [isReading] at h
   | streamEnter id sp => simp [isReading] at h
   | streamExit => simp [isReading] at h
+  | streamExitAt k => simp [isReading] at h
   | setBlacklist b => exact eff_of_tr r _ _ [] rfl rfl rfl (Tr.of_same rfl rfl)
   | setSlow d c => exact eff_of_tr r _ _ [] rfl rfl rfl (Tr.of_same rfl rfl)
   | sleep n => exact eff_of_tr r _ _ [] rfl rfl rfl (Tr.of_same rfl rfl)
